@@ -23,7 +23,10 @@ pub fn cache_index<C>(s: &Server<C>, ip: IpAddr) -> Option<usize> {
 }
 /// Current occupant of a slot.
 pub fn cache_slot<C>(s: &Server<C>, idx: usize) -> Option<(IpAddr, Instant)> {
-    s.client_cache.elements.get(idx).and_then(|e| e.as_ref().map(|(a, t)| (*a, *t)))
+    s.client_cache
+        .elements
+        .get(idx)
+        .and_then(|e| e.as_ref().map(|(a, t)| (*a, *t)))
 }
 
 /// The private `TimestampedCache<IpAddr>` on its own, driven with synthetic `Instant`s.
@@ -37,12 +40,19 @@ impl CacheProbe {
         self.0.elements.len()
     }
     pub fn index(&self, ip: IpAddr) -> Option<usize> {
-        if self.0.elements.is_empty() { None } else { Some(self.0.index(&ip)) }
+        if self.0.elements.is_empty() {
+            None
+        } else {
+            Some(self.0.index(&ip))
+        }
     }
     pub fn is_allowed(&mut self, ip: IpAddr, at: Instant, cutoff: Duration) -> bool {
         self.0.is_allowed(ip, at, cutoff)
     }
     pub fn slot(&self, idx: usize) -> Option<(IpAddr, Instant)> {
-        self.0.elements.get(idx).and_then(|e| e.as_ref().map(|(a, t)| (*a, *t)))
+        self.0
+            .elements
+            .get(idx)
+            .and_then(|e| e.as_ref().map(|(a, t)| (*a, *t)))
     }
 }
